@@ -11,7 +11,8 @@ ID = "C06"
 LEVEL = "model_checking"
 
 CONF_Q = [("isi", {}), ("isi", {"MRTS": 2 * U}), ("spike", {}), ("spike", {"MRTS": 1.5 * U, "RI": True}),
-          ("sync", {}), ("sync", {"max_tau": U, "MRTS": 6 * U})]
+          ("sync", {}), ("sync", {"max_tau": U, "MRTS": 6 * U}), ("isi", {"MRTS": "auto"}),
+          ("spike", {"MRTS": "auto"})]
 CONF_T = CONF_Q + [("isi", {"MRTS": 40 * U}), ("spike", {"RI": True}), ("spike", {"MRTS": 3 * U}),
                    ("sync", {"max_tau": 0.5 * U}), ("sync", {"MRTS": 12 * U})]
 
@@ -19,9 +20,11 @@ CONF_T = CONF_Q + [("isi", {"MRTS": 40 * U}), ("spike", {"RI": True}), ("spike",
 def plan(tier):
     if tier == "quick":
         specs = [(3, [("dense", 1, 3)], CONF_Q), (4, [("dense", 1, 2)], CONF_Q[:5:2] + CONF_Q[5:]),
+                 (3, [("near", 2, 2)], CONF_Q),
                  (5, [("bounded", 1, 1, 2)], CONF_Q[::2])]
     else:
         specs = [(3, [("dense", 1, 4), ("bounded", 2, 5, 5)], CONF_T), (4, [("dense", 1, 3)], CONF_Q),
+                 (3, [("near", 2, 3)], CONF_Q), (4, [("near", 2, 2)], CONF_Q[::2]),
                  (5, [("dense", 1, 1), ("bounded", 1, 2, 3)], CONF_Q)]
     tasks, descs = [], []
     for N, regimes, conf in specs:
@@ -87,9 +90,15 @@ def evaluate(r, trains, edges, name, kw, be, rank=()):
     mat = {"isi": spk.isi_distance_matrix, "spike": spk.spike_distance_matrix,
            "sync": spk.spike_sync_matrix}[name]
     pr = [(a, b) for a in range(n) for b in range(a + 1, n)]
+    kwp = kw
+    if kw.get("MRTS") == "auto":
+        # 'auto' is the pooled threshold of the whole list (C15); the bivariate building
+        # blocks get that threshold explicitly
+        from pyspike.isi_lengths import default_thresh
+        kwp = dict(kw, MRTS=float(default_thresh(sts)))
     try:
-        pp = {ab: prof(sts[ab[0]], sts[ab[1]], **kw) for ab in pr}
-        pd = {ab: float(dist(sts[ab[0]], sts[ab[1]], **kw)) for ab in pr}
+        pp = {ab: prof(sts[ab[0]], sts[ab[1]], **kwp) for ab in pr}
+        pd = {ab: float(dist(sts[ab[0]], sts[ab[1]], **kwp)) for ab in pr}
         P = prof(sts, **kw)
         D = float(dist(sts, **kw))
         M = np.asarray(mat(sts, **kw), float)
@@ -180,7 +189,8 @@ def evaluate(r, trains, edges, name, kw, be, rank=()):
         return
     # the same with an averaging sub-interval (second half / middle half of the recording)
     T = te - ts
-    for iv in ([ts + T / 2, te], [ts + T / 4, te - T / 4]):
+    for iv in ([ts + T / 2, te], [ts + T / 4, te - T / 4],
+               [[ts, ts + T / 4], [ts + T / 2, te]]):      # the last one: a sequence of intervals
         try:
             Di = float(dist(sts, interval=iv, **kw))
             if name == "sync":
@@ -191,7 +201,7 @@ def evaluate(r, trains, edges, name, kw, be, rank=()):
                     ms += m_
                 Die = cs / ms if ms > 0 else 1.0
             else:
-                Die = sum(float(dist(sts[a], sts[b], interval=iv, **kw)) for a, b in pr) / npairs
+                Die = sum(float(q.avrg(iv)) for q in pp.values()) / npairs
         except Exception as e:
             r.violation(ID, "exception", be, "exception.interval/%s/%s/%s" % (name, be, cls),
                         dict(case, interval=iv), "a number", "%s: %s" % (type(e).__name__, e),
